@@ -34,6 +34,7 @@ func init() {
 		"vNote":       func(m *machine, fr *frame, args []value) value { return nil },
 		"vSymbolic":   func(m *machine, fr *frame, args []value) value { return true },
 		"vYield":      hYield,
+		"vYieldAgain": hYieldAgain,
 		"vThorough":   func(m *machine, fr *frame, args []value) value { return m.w.thorough },
 		"vWriter":     hWriter,
 		"vNewContext": hNewContext,
@@ -121,7 +122,7 @@ func hInt(m *machine, fr *frame, args []value) value {
 		m.inputs[name].Lo, m.inputs[name].Hi = lo, hi
 		m.addPC(rawApp("<=", SBool, mkInt(lo), t))
 		m.addPC(rawApp("<=", SBool, t, mkInt(hi)))
-		if hi >= lo && uint64(hi)-uint64(lo) < 16 {
+		if hi >= lo && uint64(hi)-uint64(lo) < 32 {
 			// small domains are enumerated (one explored alternative per value)
 			m.smallVars[name] = m.inputs[name]
 			m.concretizeIn(t)
@@ -492,7 +493,10 @@ func (m *machine) callOpaqueMethod(fr *frame, om *opaqueMethod, args []value) va
 		}
 	}
 	if strings.HasPrefix(om.obj.kind, "w:") && om.name == "Write" {
-		panic(cut{"direct Write call on a recorded writer"})
+		// args: receiver, []byte
+		text := bytesToTerm(args[len(args)-1])
+		m.appendWriter(om.obj.kind, text)
+		return tuple{fromTerm(mkLen(text)), iface{}}
 	}
 	return m.callOpaqueMethodExt(fr, om, args)
 }
